@@ -50,17 +50,21 @@ SMALL_KINDS = ["STARTUP", "OPTIONS", "AUTH_RESPONSE", "CREDENTIALS", "PREPARE", 
 def runs(ctx):
     """(label, constants) per TLC run.  FullValues=False: set/unset lattice of every option, the alphabet element picked
     by the case's variant (2 variants); FullValues=True: every option ranges over unset + its whole alphabet."""
+    big = {"QUERY", "EXECUTE", "BATCH"}
     if ctx.quick:
         return [("all kinds: set/unset lattice x 2 variants; frame options full (small kinds) / pairwise (QUERY, EXECUTE, BATCH)",
-                 dict(Families=set(ALL_KINDS), FullValues=False, FullFrame=set(SMALL_KINDS), Small=True))]
+                 dict(Families=set(ALL_KINDS), FullValues=False, FullFrame=set(SMALL_KINDS), VarSet={1, 2}, Small=True))]
     return [
-        ("all kinds: set/unset lattice x 2 variants x full frame-option lattice",
-         dict(Families=set(ALL_KINDS), FullValues=False, FullFrame=set(ALL_KINDS), Small=False)),
-        ("QUERY, PREPARE, BATCH: full value alphabets, pairwise frame options",
-         dict(Families={"QUERY", "PREPARE", "BATCH"}, FullValues=True, FullFrame=set(), Small=False)),
-        ("EXECUTE: full value alphabets, pairwise frame options",
-         dict(Families={"EXECUTE"}, FullValues=True, FullFrame=set(), Small=True)),
+        ("all kinds: set/unset lattice x 2 variants; full frame-option lattice except EXECUTE (pairwise); all value lists / batch shapes",
+         dict(Families=set(ALL_KINDS), FullValues=False, FullFrame=set(ALL_KINDS) - {"EXECUTE"}, VarSet={1, 2}, Small=False)),
+        ("QUERY, PREPARE, BATCH: every option over unset + its whole alphabet, pairwise frame options",
+         dict(Families={"QUERY", "PREPARE", "BATCH"}, FullValues=True, FullFrame=set(), VarSet={2}, Small=False)),
+        ("EXECUTE: every option over unset + its whole alphabet, pairwise frame options",
+         dict(Families={"EXECUTE"}, FullValues=True, FullFrame=set(), VarSet={2}, Small=True)),
     ]
+
+
+JVM = {"JAVA_TOOL_OPTIONS": "-XX:TieredStopAtLevel=1 -XX:ParallelGCThreads=2 -Xms1g"}      # short runs: no C2 warm-up
 
 
 def case_key(case):
@@ -88,7 +92,7 @@ def run(ctx):
     for label, consts in runs(ctx):
         cfg = tlc.write_cfg(os.path.join(ctx.scratch, "WireRequests_%d.cfg" % len(ctx.extra.get("tlc_runs", []))),
                             constants=consts, invariants=INVARIANTS, deadlock=False)
-        res, states = wb.enumerate_fast(tlc, "WireRequests", cfg, ctx.scratch, timeout=600 if ctx.quick else 3000)
+        res, states = wb.enumerate_fast(tlc, "WireRequests", cfg, ctx.scratch, timeout=600 if ctx.quick else 3000, env=JVM)
         ctx.add_tlc(res, label)
         if res.violation:
             ctx.violation("TLC: invariant %s violated in WireRequests.tla (the reference encoder itself is inconsistent)"
@@ -139,10 +143,10 @@ def run(ctx):
     if not any(c["reject"] for c in per_family.values()) or not any(c["open"] for c in per_family.values()):
         raise tlc.MachineryError("vacuity: reject / open expectation never enumerated")
     witnesses = ["Witness_Reject"] if ctx.quick else ["Witness_Reject", "Witness_Open", "Witness_Alternatives", "Witness_IntFlags"]
-    wconst = dict(Families={"PREPARE", "STARTUP", "BATCH"}, FullValues=False, FullFrame=set(), Small=True)
+    wconst = dict(Families={"PREPARE", "STARTUP", "BATCH"}, FullValues=False, FullFrame=set(), VarSet={1}, Small=True)
     for w in witnesses:
         wcfg = tlc.write_cfg(os.path.join(ctx.scratch, w + ".cfg"), constants=wconst, invariants=[w], deadlock=False)
-        wres = tlc.check_model("WireRequests", wcfg, ctx.scratch, timeout=600)
+        wres = tlc.check_model("WireRequests", wcfg, ctx.scratch, timeout=600, env=JVM)
         if wres.invariant != w:
             raise tlc.MachineryError("vacuity witness %s was not reached" % w)
     ctx.note("vacuity_witnesses_reached", len(witnesses))
